@@ -171,8 +171,13 @@ def run_one(out, drv, facts, prog, checker, rng, tag):
         small = gen_prog.shrink(prog, differs, budget=150)
         ww = drv.ask({"cmd": "prog", "prog": small, "skel": skel, "wrap": wrap})
         gg, _ = impl_prog.run_program(small, checker, None)
-        out.model_diff(f"{tag}:transcript", f"implementation transcript {gg} differs from the model's {impl_prog.canon_model_obs(ww.get('obs', []))}",
-                       {"program": small, "impl": gg, "model": ww})
+        if tag in ("block-arguments", "toggle"):
+            # directed programs whose verdicts the statement dictates (a block starts from nothing; a block ends the context it opened)
+            out.violation(f"{tag}:transcript", f"the program must behave as {impl_prog.canon_model_obs(ww.get('obs', []))} (every context starts empty and ends where it began) "
+                          f"but the implementation gives {gg}", {"program": small, "impl": gg})
+        else:
+            out.model_diff(f"{tag}:transcript", f"implementation transcript {gg} differs from the model's {impl_prog.canon_model_obs(ww.get('obs', []))}",
+                           {"program": small, "impl": gg, "model": ww})
 
 
 def toggle_programs():
@@ -194,10 +199,92 @@ def toggle_programs():
     ]
 
 
+def block_argument_programs():
+    """a context block inside a decorated call starts from nothing: neither the caller's axis bindings nor the caller's
+    ARGUMENTS (`{n}`) are visible in it"""
+    a, v = gen_prog.arr_type, gen_prog.arr_val
+    chk = lambda d, s: {"op": "check", "l": a(d), "x": v(s)}  # noqa: E731
+    P_ = {"op": "print"}
+    call = lambda kind, body: [{"op": "call", "kind": kind, "params": [{"name": "n", "ty": gen_prog.ANY, "val": gen_prog.ival(3)},  # noqa: E731
+                                                                         {"name": "x", "ty": a("k"), "val": v([3])}],
+                                 "ret": None, "bindok": True, "notc": False, "body": body, "exit": "ret"}, P_]
+    progs = []
+    for kind in ("none", "new", "old"):
+        progs.append(call(kind, [chk("{n}", [3]), P_, {"op": "ctx", "body": [chk("{n}", [3]), P_], "exit": "ret"}, P_, chk("{n}", [3]), chk("k", [4]), P_]))
+        progs.append(call(kind, [{"op": "ctx", "body": [{"op": "ctx", "body": [chk("{n}+1", [4]), P_], "exit": "ret"}, chk("k", [9]), P_], "exit": "ret"}, chk("k", [3]), P_]))
+    return progs
+
+
+def recursion_cases(out):
+    """a decorated function re-entered while one of its own calls is still active (self- and mutual recursion): when the
+    inner call has ended — by return, Exception or BaseException — the outer call's bindings are what they were"""
+    import typeguard
+
+    from impl_prog import Duck, canon_bindings
+
+    class Stop(BaseException):
+        pass
+
+    for style in ("none", "new", "old"):
+        for how in ("return", "exception", "base"):
+            log = []
+
+            def deco(fn):
+                if style == "none":
+                    return jaxtyped(typechecker=None)(fn)
+                if style == "new":
+                    return jaxtyped(typechecker=typeguard.typechecked)(fn)
+                return jaxtyped(typeguard.typechecked(fn))
+
+            @deco
+            def rec(x: Float[Duck, "n"], depth: int):
+                isinstance(Duck((x.shape[0], 7), "float32"), Float[Duck, "n m"])
+                before = canon_bindings(impl.bindings())["single"]
+                if depth > 0:
+                    try:
+                        rec(Duck((x.shape[0] + 1,), "float32"), depth - 1)
+                    except (ValueError, Stop):
+                        pass
+                elif how == "exception":
+                    raise ValueError("inner")
+                elif how == "base":
+                    raise Stop()
+                after = canon_bindings(impl.bindings())["single"]
+                log.append((depth, before, after, impl.check_once(Duck((x.shape[0],), "float32"), Float[Duck, "n"])))
+                return x
+
+            @deco
+            def ping(x: Float[Duck, "n"], k: int):
+                isinstance(x, Float[Duck, "n"])
+                r = pong(Duck((x.shape[0] + 2,), "float32"), k) if k else None
+                log.append(("ping", k, canon_bindings(impl.bindings())["single"]))
+                return x
+
+            @deco
+            def pong(y: Float[Duck, "n"], k: int):
+                return ping(Duck((y.shape[0] + 2,), "float32"), k - 1)
+
+            try:
+                rec(Duck((3,), "float32"), 2)
+                ping(Duck((1,), "float32"), 2)
+                bad = [e for e in log if (e[0] != "ping" and (e[1] != e[2] or e[3] != "T" or ["n", 3 + (2 - e[0])] not in e[1]))
+                       or (e[0] == "ping" and e[2] != [["n", 1 + 4 * (2 - e[1])]])]
+                got = "ok" if not bad else f"wrong: {bad[:2]}"
+            except BaseException as e:  # noqa: BLE001
+                got = f"raised {type(e).__name__}: {e}"[:200]
+            out.case(("recursion", style, how), True, sample={"wrapper": style, "inner_call_ends_by": how, "log": [list(map(str, e)) for e in log][:6], "outcome": got})
+            if got != "ok":
+                out.violation(f"recursion:{style}", f"recursive decorated calls ({style}-style wrapper, innermost call ends by {how}): {got} — every level must see its own "
+                              f"bindings before and after the call it makes", {"recursion": [style, how]})
+
+
 def run(tier, seed, out, drv, facts):
     rng = Rng(seed, "C05")
     thorough = tier == "thorough"
     generator_cases(out)
+    recursion_cases(out)
+    for prog in block_argument_programs():
+        run_one(out, drv, facts, prog, "typeguard", rng, "block-arguments")
     for prog in toggle_programs():
         try:
             run_one(out, drv, facts, prog, "typeguard", rng, "toggle")
@@ -211,6 +298,9 @@ def run(tier, seed, out, drv, facts):
 
 
 def replay(rep, out, drv, facts):
+    if "recursion" in rep:
+        recursion_cases(out)
+        return
     if "program" in rep:
         run_one(out, drv, facts, rep["program"], "typeguard", None, "replay")
     else:
